@@ -16,7 +16,7 @@
                | 10 group tag loads out                       _send_request_to_coordinator
    uscript   ::= lp(shuffled node ids) lp(kout codes) lp(shuffled hosts h p ...) lp(bout codes)
    rawresp   ::= lp(node h p ...) ntopics (terr topic lp(perr part leader ...))^ntopics
-   loads     ::= n (0 uscript rawresp | 1 uscript err node host port)^n
+   loads     ::= n (0 obs uscript rawresp | 1 obs uscript err node host port)^n      obs 1: the lookup's request was seen on the wire
    outs      ::= n out^n          out ::= code lp(t p err tag ...)      code 0 failed, 1 answered, 2 failed unwritten *)
 From AV Require Import Base.Util Model.ClientMeta Model.ClientRoute.
 
@@ -93,26 +93,29 @@ Definition parse_rawresp (l : list Z) : option (rawresp * list Z) :=
   | _ => None
   end.
 
-Fixpoint parse_loads (n : nat) (l : list Z) : option (list load * list Z) :=
+(* each load carries a flag: was the request of that lookup seen on the wire (1) or not (0: every try was an
+   unanswered connection attempt, or the client was closed)?  Only then can the implementation side of the trace
+   show what was asked (kind, topic / group); the model shows its own [le_kind; le_id] under the same flag. *)
+Fixpoint parse_loads (n : nat) (l : list Z) : option (list (load * bool) * list Z) :=
   match n with
   | O => Some ([], l)
   | S n' =>
       match l with
-      | 0 :: l1 =>
+      | 0 :: obs :: l1 =>
           match parse_uscript l1 with
           | Some (u, l2) =>
               match parse_rawresp l2 with
               | Some (r, l3) =>
                   match parse_loads n' l3 with
-                  | Some (ls, l4) => Some (LoadMeta u r :: ls, l4)
+                  | Some (ls, l4) => Some ((LoadMeta u r, obs =? 1) :: ls, l4)
                   | None => None end
               | None => None end
           | None => None end
-      | 1 :: l1 =>
+      | 1 :: obs :: l1 =>
           match parse_uscript l1 with
           | Some (u, err :: node :: h :: p :: l2) =>
               match parse_loads n' l2 with
-              | Some (ls, l3) => Some (LoadCoord u (err, (node, (h, p))) :: ls, l3)
+              | Some (ls, l3) => Some ((LoadCoord u (err, (node, (h, p))), obs =? 1) :: ls, l3)
               | None => None end
           | _ => None end
       | _ => None
@@ -211,9 +214,15 @@ Fixpoint emit_reqs (qs : list reqev) (hidden : list bool) : list Z :=
       [rq_node q; fst (rq_addr q); snd (rq_addr q)] ++ zlp (if h then [-1] else map p_tag (rq_payloads q))
       ++ emit_reqs qs' (tl hidden)
   end.
-Definition emit_aresult (r : aresult) (hidden : list bool) : list Z :=
-  Z.of_nat (length (a_loads r)) ::
-  flat_map (fun e => emit_log (le_log e)) (a_loads r)
+Fixpoint emit_loads (evs : list loadev) (observed : list bool) : list Z :=
+  match evs with
+  | [] => []
+  | e :: evs' =>
+      let o := match observed with b :: _ => b | [] => false end in
+      (if o then [le_kind e; le_id e] else [-1; -1]) ++ emit_log (le_log e) ++ emit_loads evs' (tl observed)
+  end.
+Definition emit_aresult (r : aresult) (observed : list bool) (hidden : list bool) : list Z :=
+  Z.of_nat (length (a_loads r)) :: emit_loads (a_loads r) observed
   ++ Z.of_nat (length (a_reqs r)) :: emit_reqs (a_reqs r) hidden.
 
 Definition zrange (n : Z) : list Z := map Z.of_nat (seq 0 (Z.to_nat n)).
@@ -270,16 +279,17 @@ Fixpoint run_ops (fuel : nat) (st : state) (univ : Z) (l : list Z) : list Z :=
           match take_lp l1 with
           | Some (pl, l2) =>
               match parse_counted parse_loads l2 with
-              | Some (loads, l3) =>
+              | Some (loadso, l3) =>
                   match parse_counted parse_outs l3 with
                   | Some (outsh, l4) =>
+                      let loads := map fst loadso in
                       let outs := map fst outsh in
                       let ps := map payload_of3 (chunk3 pl) in
                       let '(ar, st1', res) :=
                         if via =? 1 then send_public st (opt_group g) (fail =? 1) (expect =? 1) ps loads outs
                         else send_direct st (opt_group g) (expect =? 1) ps loads outs in
                       let st1 := close_finish st st1' in
-                      [-7; 3] ++ emit_aresult ar (map snd outsh) ++ emit_pres res ++ dump st1 univ ++ run_ops fuel' st1 univ l4
+                      [-7; 3] ++ emit_aresult ar (map snd loadso) (map snd outsh) ++ emit_pres res ++ dump st1 univ ++ run_ops fuel' st1 univ l4
                   | None => [-99] end
               | None => [-99] end
           | None => [-99] end
@@ -303,12 +313,13 @@ Fixpoint run_ops (fuel : nat) (st : state) (univ : Z) (l : list Z) : list Z :=
           | None => [-99] end
       | 10 :: g :: tag :: l1 =>
           match parse_counted parse_loads l1 with
-          | Some (loads, l2) =>
+          | Some (loadso, l2) =>
               match parse_out l2 with
               | Some (o, h, l3) =>
+                  let loads := map fst loadso in
                   let '(ar, st1', res) := send_coord st g {| p_topic := -1; p_part := -1; p_tag := tag |} loads o in
                   let st1 := close_finish st st1' in
-                  [-7; 10] ++ emit_aresult ar [h] ++ emit_pres res ++ dump st1 univ ++ run_ops fuel' st1 univ l3
+                  [-7; 10] ++ emit_aresult ar (map snd loadso) [h] ++ emit_pres res ++ dump st1 univ ++ run_ops fuel' st1 univ l3
               | None => [-99] end
           | None => [-99] end
       | _ => [-99]
